@@ -24,7 +24,87 @@ type c05Typ struct {
 	P bool     `json:"p,omitempty"` // pointer to K
 	E *c05Typ  `json:"e,omitempty"` // element of slice / map[string]E
 	F []c05Fld `json:"f,omitempty"` // fields of struct
+	// Defined (named) types, which reflect.StructOf / SliceOf / MapOf can only contain when
+	// they are COMPILED: D = the defined variant of a scalar kind (type c05DString string ...),
+	// of []string / []int (c05Tags, c05Nums) or of map[string]string / map[string]bool
+	// (c05Attrs, c05Flags); DK = the map key is the defined type c05Key; C = a compiled
+	// struct type ("addr", "base") whose fields F describes.
+	D  bool   `json:"d,omitempty"`
+	DK bool   `json:"dk,omitempty"`
+	C  string `json:"c,omitempty"`
 }
+
+type (
+	c05DString  string
+	c05DBool    bool
+	c05DInt     int
+	c05DInt8    int8
+	c05DInt32   int32
+	c05DInt64   int64
+	c05DUint8   uint8
+	c05DUint16  uint16
+	c05DUint64  uint64
+	c05DFloat32 float32
+	c05DFloat64 float64
+	c05Key      string
+	c05Tags     []string
+	c05Nums     []int
+	c05Attrs    map[string]string
+	c05Flags    map[string]bool
+
+	// compiled struct types (tags for every tag key the rules use)
+	c05Base struct {
+		TraceId c05DString `json:"traceId,optional" key:"traceId,optional" form:"traceId,optional" cfg:"traceId,optional"`
+		Debug   c05DBool   `json:"debug,default=false" key:"debug,default=false" form:"debug,default=false" cfg:"debug,default=false"`
+	}
+	c05Addr struct {
+		Host   c05DString            `json:"host" key:"host" form:"host" cfg:"host"`
+		Port   c05DUint16            `json:"port,default=80" key:"port,default=80" form:"port,default=80" cfg:"port,default=80"`
+		Level  c05DString            `json:"level,optional,options=debug|info" key:"level,optional,options=debug|info" form:"level,optional,options=debug|info" cfg:"level,optional,options=debug|info"`
+		Tags   c05Tags               `json:"tags,optional" key:"tags,optional" form:"tags,optional" cfg:"tags,optional"`
+		Levels map[string]c05DString `json:"levels,optional" key:"levels,optional" form:"levels,optional" cfg:"levels,optional"`
+		Flags  map[string]c05DBool   `json:"flags,optional" key:"flags,optional" form:"flags,optional" cfg:"flags,optional"`
+	}
+)
+
+var c05Defined = map[string]reflect.Type{
+	"string": reflect.TypeOf(c05DString("")), "bool": reflect.TypeOf(c05DBool(false)),
+	"int": reflect.TypeOf(c05DInt(0)), "int8": reflect.TypeOf(c05DInt8(0)), "int32": reflect.TypeOf(c05DInt32(0)), "int64": reflect.TypeOf(c05DInt64(0)),
+	"uint8": reflect.TypeOf(c05DUint8(0)), "uint16": reflect.TypeOf(c05DUint16(0)), "uint64": reflect.TypeOf(c05DUint64(0)),
+	"float32": reflect.TypeOf(c05DFloat32(0)), "float64": reflect.TypeOf(c05DFloat64(0)),
+}
+
+// c05Compiled: reflect type and field description of a compiled struct type.
+func c05Compiled(name, tag string) (reflect.Type, []c05Fld) {
+	d := func(s string) *string { return &s }
+	fld := func(fn, fk string, t c05Typ) c05Fld {
+		return c05Fld{W: []string{fk}, FN: fn, FK: fk, T: t, Tag: tag, KS: "camel"}
+	}
+	switch name {
+	case "base":
+		a := fld("TraceId", "traceId", c05Typ{K: "string", D: true})
+		a.Opt = true
+		b := fld("Debug", "debug", c05Typ{K: "bool", D: true})
+		b.Def = d("false")
+		return reflect.TypeOf(c05Base{}), []c05Fld{a, b}
+	case "addr":
+		h := fld("Host", "host", c05Typ{K: "string", D: true})
+		p := fld("Port", "port", c05Typ{K: "uint16", D: true})
+		p.Def = d("80")
+		l := fld("Level", "level", c05Typ{K: "string", D: true})
+		l.Opt, l.Opts = true, []string{"debug", "info"}
+		tg := fld("Tags", "tags", c05Typ{K: "slice", D: true, E: &c05Typ{K: "string"}})
+		tg.Opt = true
+		lv := fld("Levels", "levels", c05Typ{K: "map", E: &c05Typ{K: "string", D: true}})
+		lv.Opt = true
+		fl := fld("Flags", "flags", c05Typ{K: "map", E: &c05Typ{K: "bool", D: true}})
+		fl.Opt = true
+		return reflect.TypeOf(c05Addr{}), []c05Fld{h, p, l, tg, lv, fl}
+	}
+	panic("c05: unknown compiled type " + name)
+}
+
+var c05CompiledTags = map[string]bool{"json": true, "key": true, "form": true, "cfg": true}
 
 type c05Rng struct {
 	L  string `json:"l,omitempty"` // "" = open end
@@ -44,10 +124,13 @@ type c05Fld struct {
 	Def  *string  `json:"def,omitempty"`
 	Opts []string `json:"opts,omitempty"`
 	Rng  *c05Rng  `json:"rng,omitempty"`
-	Str  bool     `json:"str,omitempty"` // ",string"
-	Inh  bool     `json:"inh,omitempty"` // ",inherit": an absent value is looked up in the enclosing objects
-	Env  bool     `json:"env,omitempty"` // ",env=NAME" (NAME is made unique per call: proc.Env memoises lookups)
-	EV   *string  `json:"ev,omitempty"`  // value of the environment variable for this case (nil = unset)
+	Str  bool     `json:"str,omitempty"`  // ",string"
+	Inh  bool     `json:"inh,omitempty"`  // ",inherit": an absent value is looked up in the enclosing objects
+	Env  bool     `json:"env,omitempty"`  // ",env=NAME" (NAME is made unique per call: proc.Env memoises lookups)
+	EV   *string  `json:"ev,omitempty"`   // value of the environment variable for this case (nil = unset)
+	Tag2 []string `json:"tag2,omitempty"` // request structs: further parts (path form header json) the field is tagged for, all optional
+	FN   string   `json:"fn,omitempty"`   // fixed Go name and key (fields of compiled struct types)
+	FK   string   `json:"fk,omitempty"`
 }
 
 // Environment variables of env= fields. Names must be fresh for every call of the
@@ -167,6 +250,9 @@ func c05Title(w string) string {
 }
 
 func (f *c05Fld) goName(i int) string {
+	if f.FN != "" {
+		return f.FN
+	}
 	var b strings.Builder
 	for _, w := range f.W {
 		b.WriteString(c05Title(w))
@@ -219,6 +305,9 @@ func c05Spell(words []string, i int, style string) string {
 
 // key is the document key the field is looked up under.
 func (f *c05Fld) key(i int) string {
+	if f.FK != "" {
+		return f.FK
+	}
 	if f.Tag == "" || f.KS == "" {
 		return f.goName(i)
 	}
@@ -266,7 +355,12 @@ func (f *c05Fld) tagText(i int) string {
 	if f.Env {
 		parts = append(parts, "env="+c05EnvAssign(f))
 	}
-	return f.Tag + ":" + strconv.Quote(strings.Join(parts, ","))
+	out := f.Tag + ":" + strconv.Quote(strings.Join(parts, ","))
+	for _, t2 := range f.Tag2 {
+		// the same field is also (optionally) readable from other request parts
+		out += " " + t2 + ":" + strconv.Quote(f.key(i)+",optional")
+	}
+	return out
 }
 
 // ---- reflect construction ----
@@ -333,15 +427,42 @@ func (t *c05Typ) rtype() reflect.Type {
 	var rt reflect.Type
 	switch t.K {
 	case "struct":
-		rt = c05StructType(t.F)
+		if t.C != "" {
+			rt, _ = c05Compiled(t.C, "json")
+		} else {
+			rt = c05StructType(t.F)
+		}
 	case "slice":
 		rt = reflect.SliceOf(t.E.rtype())
+		if t.D && !t.E.P && !t.E.D {
+			switch t.E.K {
+			case "string":
+				rt = reflect.TypeOf(c05Tags(nil))
+			case "int":
+				rt = reflect.TypeOf(c05Nums(nil))
+			}
+		}
 	case "map":
-		rt = reflect.MapOf(reflect.TypeOf(""), t.E.rtype())
+		kt := reflect.TypeOf("")
+		if t.DK {
+			kt = reflect.TypeOf(c05Key(""))
+		}
+		rt = reflect.MapOf(kt, t.E.rtype())
+		if t.D && !t.DK && !t.E.P && !t.E.D {
+			switch t.E.K {
+			case "string":
+				rt = reflect.TypeOf(c05Attrs(nil))
+			case "bool":
+				rt = reflect.TypeOf(c05Flags(nil))
+			}
+		}
 	default:
 		var ok bool
 		if rt, ok = c05Scalars[t.K]; !ok {
 			panic("c05: unknown kind " + t.K)
+		}
+		if dt, has := c05Defined[t.K]; t.D && has {
+			rt = dt
 		}
 	}
 	if t.P {
